@@ -49,6 +49,9 @@ func init() {
 	mutant(&Mutant{Name: "c19-separator-only-for-one-js-type", Property: "C19", File: "cmd/minify/main.go",
 		Old: "\t\tif err == nil && jsMimetypeRegexp.MatchString(fileMimetype) {", New: "\t\tif err == nil && fileMimetype == extMap[\"js\"] {",
 		Rule: "R19.4", Construct: "bundle separator"})
+	mutant(&Mutant{Name: "c19-first-filter-wins", Property: "C19", File: "cmd/minify/main.go",
+		Old: "\t\t\tmatch = filters[i][0] == '+'\n", New: "\t\t\tmatch = filters[i][0] == '+'\n\t\t\tbreak\n",
+		Rule: "R19.10", Construct: "filter loop"})
 	mutant(&Mutant{Name: "c19-separator-from-start", Property: "C19", File: "cmd/minify/io.go",
 		Old: "m := copy(p, r.sep[len(r.sep)-r.sepLeft:])", New: "m := copy(p, r.sep[:r.sepLeft])",
 		Rule: "R19.8", Construct: "copy of the pending"})
@@ -163,6 +166,9 @@ func runC20(c *Ctx) {
 	c.r204()
 	c.r205(x, "R20.5")
 	c.r206(x, "R20.6")
+	// when minification fails the destination must receive the ORIGINAL bytes: with an in-place run the backup
+	// is removed after that write, so anything else loses the only copy
+	c.alsoUnder(map[string]string{"R19.1": "R20.7"}, nil, func() { c.r191(x) })
 }
 
 // R20.6: the overwrite detection identifies files the way the truncating open resolves them.
@@ -888,6 +894,7 @@ func runC19(c *Ctx) {
 	c.r206(x, "R19.7")
 	c.r198(x)
 	c.r199()
+	c.r1910(x)
 }
 
 // R19.8: the bundle reader delivers files in order with the whole separator between them.
@@ -1023,7 +1030,7 @@ func (c *Ctx) r196(x *cliCtx) {
 
 func (c *Ctx) r191(x *cliCtx) {
 	const rule = "R19.1"
-	c.R.Rule(rule, "in cmd/minify.minify, on the non-nil outcome of err = m.Minify(fileMimetype, w, …), every path to the single io.Copy(fw, w) rebinds w to a buffer over b — b being the result of io.ReadAll(fr), never reassigned — and sets success = false; every return after that copy yields success or false")
+	c.R.Rule(rule, "in cmd/minify.minify, on the non-nil outcome of err = m.Minify(fileMimetype, w, …), every path to the single io.Copy(fw, w) rebinds w to a buffer over b — b being the result of io.ReadAll(fr), never reassigned, and used nowhere else than in len/cap, the read-only bytes.NewReader(b) given to the library and that fallback (no reslice of it as output storage, no bytes.Buffer over it as input: the minifiers rewrite what they are given in place) — and sets success = false; every return after that copy yields success or false")
 	g, info := x.g, x.info
 	construct := "main.minify/fallback to the original bytes"
 	var mn *flow.Node
@@ -1072,6 +1079,26 @@ func (c *Ctx) r191(x *cliCtx) {
 	if bName == "" || !readAll || nDefs != 1 {
 		bad = append(bad, "the bytes given to the library are not the single io.ReadAll result")
 	}
+	// b is not exposed to anything that can write it before the fallback: its only uses are len/cap,
+	// the read-only bytes.NewReader(b) handed to the library, and the fallback buffer after the error outcome
+	ast.Inspect(x.fd.Body, func(y ast.Node) bool {
+		id, ok := y.(*ast.Ident)
+		if !ok || id.Name != bName || bName == "" || info.Uses[id] == nil {
+			return true
+		}
+		par := c.P.Parent(id)
+		if call, isCall := par.(*ast.CallExpr); isCall {
+			switch cn := calleeName(info, call); {
+			case cn == "bytes.NewReader", cn == "bytes.NewBuffer" && c.caseLabel(call) == "" && dominatedByErrOutcome(c, x, call, e, mn):
+				return true
+			}
+			if fid, isId := call.Fun.(*ast.Ident); isId && (fid.Name == "len" || fid.Name == "cap") {
+				return true
+			}
+		}
+		bad = append(bad, "the original bytes "+bName+" are exposed as "+str0(par)+" at "+c.pos(par)+": whatever writes through that view destroys the bytes the fallback relies on")
+		return true
+	})
 	rebind := func(y *flow.Node) bool {
 		rhs, ok := assignsTo(y, func(l ast.Expr) bool { return str(l) == wName })
 		if !ok {
@@ -1514,4 +1541,101 @@ func (c *Ctx) r199() {
 	}
 	c.R.Note("R19.9: %d address-of expressions on loop variables, %d stored", n, stored)
 	c.R.Floor(rule, "packages examined", len(rels), 8)
+}
+
+// dominatedByErrOutcome: the call lies on the non-nil outcome of the library error e.
+func dominatedByErrOutcome(c *Ctx, x *cliCtx, call *ast.CallExpr, e types.Object, mn *flow.Node) bool {
+	n := x.g.NodeOf(call)
+	if n == nil {
+		return false
+	}
+	for _, f := range x.g.DomFacts(n) {
+		if f.Test.Kind != flow.KCond {
+			continue
+		}
+		for _, sc := range f.Test.Succs {
+			if (sc.Kind == flow.KTrue) == f.Value && errOutcome(x.info, sc, e, false) {
+				return true
+			}
+		}
+	}
+	return false
+}
+
+// R19.10: --include / --exclude are applied in the order given, the last matching one decides.
+func (c *Ctx) r1910(x *cliCtx) {
+	const rule = "R19.10"
+	c.R.Rule(rule, "the README documents that --include and --exclude `are interpreted in the order given` and that an include re-admits `paths previously excluded`: the last matching filter decides. In cmd/minify.fileFilter the loop over the compiled filter list (the slice that is appended to in step with the signed pattern list) therefore runs to completion — no return, break or goto leaves it — and what is returned after it is the variable the loop assigns the sign of the matching filter to. A first-match-wins loop keeps `--exclude 'src/vendor/**' --include 'src/vendor/keep.js'` from ever re-including the file")
+	pk, info := x.pk, x.info
+	fd := c.fn(rule, pk, "fileFilter")
+	if fd == nil {
+		return
+	}
+	g := c.graph(pk, fd)
+	n := 0
+	for _, rn := range g.Nodes {
+		if rn.Kind != flow.KRange {
+			continue
+		}
+		rs := rn.Stmt.(*ast.RangeStmt)
+		// the filter loop: its body reads the sign `<list>[i][0]`
+		var signVar string
+		ast.Inspect(rs.Body, func(y ast.Node) bool {
+			if as, ok := y.(*ast.AssignStmt); ok && len(as.Lhs) == 1 && len(as.Rhs) == 1 {
+				if be, isB := ast.Unparen(as.Rhs[0]).(*ast.BinaryExpr); isB && be.Op == token.EQL {
+					if k, isK := intConst(info, be.Y); isK && (k == '+' || k == '-') {
+						signVar = str(as.Lhs[0])
+					}
+				}
+			}
+			return true
+		})
+		hasSign := flow.Contains(rs.Body, func(y ast.Node) bool {
+			be, ok := y.(*ast.BinaryExpr)
+			if !ok || be.Op != token.EQL {
+				return false
+			}
+			k, isK := intConst(info, be.Y)
+			return isK && (k == '+' || k == '-')
+		})
+		if !hasSign {
+			continue
+		}
+		n++
+		construct := "main.fileFilter/filter loop over " + str(rs.X)
+		var tn *flow.Node
+		for _, sc := range rn.Succs {
+			if sc.Kind == flow.KTrue {
+				tn = sc
+			}
+		}
+		var bad []string
+		if p := g.Path(flow.Search{From: []*flow.Node{tn}, Goal: func(y *flow.Node) bool {
+			return y.Kind == flow.KExit || (y.Kind == flow.KFalse && y.Of == rn)
+		}, Avoid: func(y *flow.Node) bool { return y == rn }}); p != nil {
+			bad = append(bad, "the loop is left at a matching filter, later filters are never consulted: "+pathStr(c, g, p))
+		}
+		if signVar == "" {
+			bad = append(bad, "the sign of the matching filter is not stored in a variable for the decision after the loop")
+		} else {
+			// every return reachable after the loop yields that variable
+			for _, y := range g.Nodes {
+				r := retStmt(y)
+				if r == nil || len(r.Results) != 1 {
+					continue
+				}
+				after := false
+				for _, f := range g.DomFacts(y) {
+					if f.Test == rn && !f.Value {
+						after = true
+					}
+				}
+				if after && str(r.Results[0]) != signVar {
+					bad = append(bad, "after the loop "+str(r.Results[0])+" is returned instead of "+signVar)
+				}
+			}
+		}
+		c.R.Check(len(bad) == 0, rule, construct, c.pos(rs), "runs to completion, the last match decides", strings.Join(bad, "; "))
+	}
+	c.R.Floor(rule, "filter loops", n, 1)
 }
